@@ -346,6 +346,135 @@ static int probe_italfont(void)
 	return WIFEXITED(st) && WEXITSTATUS(st) == 0;
 }
 
+/* ------------------------------------------------------------------ xpm module (header / colour table / footer / size modelled, pixels judged here) */
+/* xpmexp: the document is split the way an XPM reader does it: width and height from the values line, the 40 palette lines give the
+   colour code of every palette index, then <height> image lines of '"' <width> codes '",' LF, the rest is the footer.  px=1: every
+   pixel, translated back through the file's own palette (code -> #RRGGBB), equals the pixel the RGBA renderer draws there
+   (every second rendered line at scale 0, every line twice at scale 2). */
+static void run_xpm(int aspect, int transp, int titled, int pgno, int subno)
+{
+	char spec[96], *err = NULL, *z, *q; vbi_export *e; void *dv = NULL; size_t n = 0, hl = 0, fl0 = 0;
+	const uint8_t *d; int cc = pg->columns < 40, cw = cc ? 16 : 12, ch = cc ? 26 : 10, scale = cc ? !!aspect : 1 + !!aspect;
+	size_t lines = ((size_t) ch << scale) >> 1; unsigned W = 0, H = 0, nc = 0, cpp = 0; int px = 1, r, i, map[256]; uint32_t pal[40];
+	snprintf(spec, sizeof spec, "xpm,aspect=%d,transparency=%d,titled=%d,creator=verif", aspect, transp, titled);
+	e = vbi_export_new(spec, &err);
+	if (!e) { free(err); printf("rej module\n"); return; }
+	{ vbi_page saved = *pg; int ok;
+	  pg->pgno = pgno; pg->subno = subno;
+	  ok = vbi_export_alloc(e, &dv, &n, pg);
+	  *pg = saved;
+	  if (!ok) { printf("ok fail\n"); vbi_export_delete(e); return; } }
+	d = (const uint8_t *) dv;
+	z = (char *) malloc(n + 1); memcpy(z, d, n); z[n] = 0;
+	for (i = 0; i < 256; ++i) map[i] = -1;
+	q = strstr(z, "/* pixels */\n");
+	if (!q) { px = 0; hl = n; fl0 = n; }
+	else {
+		char *v = strchr(z, '"'), *p = strstr(z, "/* colors */\n");
+		hl = (size_t) (q - z) + 13;
+		if (!v || v > q || sscanf(v + 1, "%u %u %u %u", &W, &H, &nc, &cpp) != 4 || nc != 40 || cpp != 1 || !p || p > q) px = 0;
+		else {
+			p += 13;
+			for (i = 0; px && i < 40; ++i) {
+				char *nl = strchr(p, '\n');
+				if (p[0] != '"' || !nl || nl > q || map[(uint8_t) p[1]] >= 0) { px = 0; break; }
+				map[(uint8_t) p[1]] = i;
+				/* the colour an XPM reader gives this code: "#RRGGBB" of the palette line ("None": the page's transparent black) */
+				{ unsigned R = 0, G = 0, B = 0;
+				  if (sscanf(p + 2, " c #%2x%2x%2x", &R, &G, &B) == 3) pal[i] = R | G << 8 | B << 16;
+				  else pal[i] = pg->color_map[i] & 0xFFFFFF; }
+				p = nl + 1;
+			}
+			if (px && p != q) px = 0;
+		}
+		if (px && (W != (unsigned) (cw * pg->columns) || H != (unsigned) (lines * pg->rows) || hl + (size_t) (W + 4) * H > n)) px = 0;
+		fl0 = px ? hl + (size_t) (W + 4) * H : n;
+	}
+	for (r = 0; px && r < pg->rows; ++r) {
+		uint32_t *c = (uint32_t *) calloc((size_t) W * ch, 4); size_t x, y;
+		if (cc) {
+			/* vbi_draw_cc_page_region has no reveal parameter and draws concealed characters; draw_row_indexed hides them
+			   (conceal = !e->reveal) also on caption pages: the reference is drawn from a row with those characters blanked */
+			uint16_t keep[64]; int k;
+			for (k = 0; k < pg->columns; ++k) { vbi_char *a = &pg->text[r * pg->columns + k]; keep[k] = a->unicode; if (a->conceal) a->unicode = 0x20; }
+			vbi_draw_cc_page_region(pg, VBI_PIXFMT_RGBA32_LE, c, -1, 0, r, pg->columns, 1);
+			for (k = 0; k < pg->columns; ++k) pg->text[r * pg->columns + k].unicode = keep[k];
+		}
+		else vbi_draw_vt_page_region(pg, VBI_PIXFMT_RGBA32_LE, c, -1, 0, r, pg->columns, 1, /* reveal */ 0, /* flash_on */ 1);
+		for (y = 0; px && y < lines; ++y) {
+			const uint8_t *o = d + hl + ((size_t) r * lines + y) * (W + 4);
+			size_t sy = scale == 0 ? 2 * y : scale == 1 ? y : y / 2;
+			if (o[0] != '"' || o[W + 1] != '"' || o[W + 2] != ',' || o[W + 3] != '\n') { px = 0; break; }
+			for (x = 0; x < W; ++x) {
+				int idx = map[o[1 + x]];
+				/* a DRCS code on a caption page (nothing the decoder produces): draw_row_indexed blanks it, the caption renderer draws a glyph */
+				if (cc && pg->text[r * pg->columns + x / cw].unicode >= 0xF000) continue;
+				if (idx < 0 || pal[idx] != (c[sy * W + x] & 0xFFFFFF)) { px = 0; break; }
+			}
+		}
+		free(c);
+	}
+	printf("ok %zu hdr=", n); h_puthex(d, (int) hl); printf(" ftr="); h_puthex(d + fl0, (int) (n - fl0)); printf(" px=%d\n", px);
+	free(z); free(dv); vbi_export_delete(e);
+}
+
+/* ------------------------------------------------------------------ ONE html export object used for several exports (htmlnew / htmlrun) */
+static vbi_export *html_obj;
+static void html_obj_free(void) { if (html_obj) vbi_export_delete(html_obj); html_obj = NULL; }
+
+/* htmlrun <target>: export the current page with the persistent object.  mem = what applications do: the size query
+   vbi_export_mem (e, NULL, 0, pg) and then the export into an exact-size heap block, with the same object.
+   prints: ok <size announced / delivered by the first call> <size of the data> <data> */
+static void run_htmlrun(const char *t, int font, int pgno, int subno, int screen)
+{
+	vbi_page saved = *pg; uint8_t *d = NULL; size_t n = 0, need = 0; int ok = 1;
+	pg->font[0] = pg->font[1] = vbi_font_descriptors + font; pg->pgno = pgno; pg->subno = subno; pg->screen_color = screen;
+	if (!strcmp(t, "alloc")) {
+		void *p = NULL;
+		ok = vbi_export_alloc(html_obj, &p, &n, pg); d = (uint8_t *) p; need = n;
+	} else if (!strcmp(t, "mem")) {
+		ssize_t r = vbi_export_mem(html_obj, NULL, 0, pg);
+		if (r < 0) ok = 0;
+		else {
+			ssize_t r2;
+			need = (size_t) r; d = (uint8_t *) malloc(need ? need : 1); memset(d, 0xAA, need ? need : 1);
+			r2 = vbi_export_mem(html_obj, d, need, pg);   /* exact-size heap block: ASan sees any write at index >= need */
+			if (r2 < 0) ok = 0; else n = (size_t) r2;
+		}
+	} else if (!strcmp(t, "fp")) {
+		const char *path = tmpfile_path(); FILE *fp = fopen(path, "wb");
+		if (!fp || !vbi_export_stdio(html_obj, fp, pg)) ok = 0;
+		if (fp) fclose(fp);
+		if (ok) { d = slurp(path, &n); need = n; if (!d) ok = 0; }
+		unlink(path);
+	} else {
+		const char *path = tmpfile_path();
+		if (!vbi_export_file(html_obj, path, pg)) ok = 0;
+		if (ok) { d = slurp(path, &n); need = n; if (!d) ok = 0; }
+		unlink(path);
+	}
+	*pg = saved;
+	if (!ok) printf("ok fail\n");
+	else { printf("ok %zu %zu ", need, n); h_puthex(d, (int) (n < need ? n : need)); printf("\n"); }
+	free(d);
+}
+
+/* does free_styles () put the current-attribute fields of the object back (a second export of a coloured cell by the
+   same object gives the same bytes)? */
+static int probe_reuse(void)
+{
+	char *err = NULL; vbi_export *e; void *a = NULL, *b = NULL; size_t na = 0, nb = 0; int r = 0;
+	page_new(1, 1, 0x41);
+	pg->text[0].foreground = 3; pg->text[0].background = 4;
+	e = vbi_export_new("html,color=1,header=0,creator=verif", &err);
+	if (e) {
+		if (vbi_export_alloc(e, &a, &na, pg) && vbi_export_alloc(e, &b, &nb, pg)) r = na == nb && !memcmp(a, b, na);
+		free(a); free(b); vbi_export_delete(e);
+	} else free(err);
+	page_free();
+	return r;
+}
+
 /* ------------------------------------------------------------------ ppm module (header / size modelled, pixel order judged here) */
 static void run_ppm(int aspect)
 {
@@ -524,7 +653,7 @@ int main(void)
 	setvbuf(stdout, NULL, _IOLBF, 0);   /* a sanitizer abort must not lose the lines already produced */
 	while ((r = h_next())) {
 		long long v[8]; uint8_t *b = NULL; int len = 0;
-		if (r == 2) { ops_clear(); page_free(); heap_limit = ~0ULL; continue; }
+		if (r == 2) { ops_clear(); page_free(); html_obj_free(); heap_limit = ~0ULL; continue; }
 		if (H_IS(0, "consts")) {
 			printf("ok tcw=12 tch=10 ccw=16 cch=26 text=%d sizes=%d,%d,%d,%d,%d,%d,%d,%d tgt=%d,%d,%d,%d,%d opaque=%d\n",
 			       (int)(sizeof pg->text / sizeof pg->text[0]),
@@ -532,11 +661,11 @@ int main(void)
 			       VBI_DOUBLE_HEIGHT2, VBI_DOUBLE_SIZE2, VBI_EXPORT_TARGET_MEM, VBI_EXPORT_TARGET_ALLOC, VBI_EXPORT_TARGET_FP,
 			       VBI_EXPORT_TARGET_FD, VBI_EXPORT_TARGET_FILE, VBI_OPAQUE);
 		} else if (H_IS(0, "probe")) {
-			int wc, ng, eb, ao; ops_clear(); wc = probe_wideclip(); ng = probe_nullguard(); eb = probe_e2big(); ao = probe_atone(); ops_clear();
+			int wc, ng, eb, ao; ops_clear(); html_obj_free(); wc = probe_wideclip(); ng = probe_nullguard(); eb = probe_e2big(); ao = probe_atone(); ops_clear();
 			printf("ok wideclip=%d nullguard=%d e2big=%d atone=%d\n", wc, ng, eb, ao);
 		} else if (H_IS(0, "probehtml")) {
-			int a, b, c; a = probe_titlelt(); b = probe_gfxesc(); c = probe_italfont();
-			printf("ok titlelt=%d gfxesc=%d italfont=%d\n", a, b, c);
+			int a, b, c, d; html_obj_free(); a = probe_titlelt(); b = probe_gfxesc(); c = probe_italfont(); d = probe_reuse();
+			printf("ok titlelt=%d gfxesc=%d italfont=%d reuse=%d\n", a, b, c, d);
 		} else if (H_IS(0, "htmlexp")) {
 			/* htmlexp <font> <gfx_chr (decimal, two or more digits)> <color> <header> <reveal> <pgno> <subno> <screen>: the html module, modelled */
 			int i, okp = h_ntok == 9;
@@ -550,6 +679,32 @@ int main(void)
 				if (d) { printf("ok %zu ", n); h_puthex(d, (int) n); printf("\n"); free(d); }
 				else printf("ok fail\n");
 			}
+		} else if (H_IS(0, "htmlnew")) {
+			/* htmlnew <gfx_chr> <color> <header> <reveal>: ONE html export object for the htmlrun ops of this case */
+			int i, okp = h_ntok == 5;
+			for (i = 0; okp && i < 4; ++i) if (!NUM(i + 1, v[i]) || v[i] < 0) okp = 0;
+			if (!okp || v[0] < 10 || v[0] > 99999 || h_tok[1][0] == '0' || v[1] > 1 || v[2] > 1 || v[3] > 1) printf("rej parse\n");
+			else {
+				char spec[160], *err = NULL;
+				html_obj_free();
+				snprintf(spec, sizeof spec, "html,gfx_chr=%s,color=%d,header=%d,reveal=%d,creator=verif", h_tok[1], (int) v[1], (int) v[2], (int) v[3]);
+				html_obj = vbi_export_new(spec, &err);
+				if (!html_obj) { free(err); printf("rej module\n"); } else printf("ok htmlnew\n");
+			}
+		} else if (H_IS(0, "htmlrun")) {
+			/* htmlrun <alloc|mem|fp|file> <font> <pgno> <subno> <screen> */
+			int i, okp = h_ntok == 6 && (H_IS(1, "alloc") || H_IS(1, "mem") || H_IS(1, "fp") || H_IS(1, "file"));
+			for (i = 0; okp && i < 4; ++i) if (!NUM(i + 2, v[i]) || v[i] < 0) okp = 0;
+			if (!okp || !html_font_ok(v[0]) || v[1] > 0x8FF || v[2] > 0x3F7F || v[3] > 39) printf("rej parse\n");
+			else if (!pg || !html_obj) printf("rej state\n");
+			else run_htmlrun(h_tok[1], (int) v[0], (int) v[1], (int) v[2], (int) v[3]);
+		} else if (H_IS(0, "xpmexp")) {
+			/* xpmexp <aspect> <transparency> <titled> <pgno> <subno> */
+			int i, okp = h_ntok == 6;
+			for (i = 0; okp && i < 5; ++i) if (!NUM(i + 1, v[i]) || v[i] < 0) okp = 0;
+			if (!okp || v[0] > 1 || v[1] > 1 || v[2] > 1 || v[3] > 0x8FF || v[4] > 0x3F7F) printf("rej parse\n");
+			else if (!pg) printf("rej state\n");
+			else run_xpm((int) v[0], (int) v[1], (int) v[2], (int) v[3], (int) v[4]);
 		} else if (H_IS(0, "ppmexp")) {
 			if (h_ntok != 2 || !NUM(1, v[0]) || v[0] < 0 || v[0] > 1) printf("rej parse\n");
 			else if (!pg) printf("rej state\n");
@@ -619,7 +774,7 @@ int main(void)
 				printf("ok drcs\n");
 			}
 		} else if (H_IS(0, "print") || H_IS(0, "printnt")) {
-			/* print <format> <size> <col> <row> <w> <h>   (table mode; printnt = non-table mode, bounds only) */
+			/* print <format> <size> <col> <row> <w> <h>   (table mode; printnt = non-table mode) */
 			int i, okp = h_ntok == 7;
 			for (i = 0; okp && i < 4; ++i) if (!NUM(i + 3, v[i])) okp = 0;
 			if (!okp || !NUM(2, v[5]) || v[5] < 0 || v[5] > (1 << 20)) printf("rej parse\n");
@@ -634,7 +789,6 @@ int main(void)
 					if (sz == 0) buf[0] = 0x5C; else memset(buf, 0xAA, (size_t) sz);
 					n = vbi_print_page_region(pg, buf, sz, fmt, H_IS(0, "print"), 0, (int) v[0], (int) v[1], (int) v[2], (int) v[3]);
 					if (n < 0 || n > sz || (sz == 0 && buf[0] != 0x5C)) printf("ok OVERRUN %d of %d\n", n, sz);
-					else if (H_IS(0, "printnt")) printf("ok bounded\n");
 					else { printf("ok %d ", n); h_puthex((uint8_t *) buf, n); printf("\n"); }
 					free(buf);
 				}
@@ -667,6 +821,6 @@ int main(void)
 		} else printf("rej op\n");
 		free(b);
 	}
-	ops_clear(); page_free(); free(ops); free(trace); free(sink);
+	ops_clear(); page_free(); html_obj_free(); free(ops); free(trace); free(sink);
 	return 0;
 }
